@@ -1,44 +1,55 @@
 ------------------------------- MODULE MC_Conn -------------------------------
-(* Bounded configurations of the connection-control implementation model (H2Conn).
+(* Bounded configurations of the connection-control implementation model (H2Conn), both roles (constant Role).
    The peer is arbitrary within the frame alphabet of H2Conn: SETTINGS (with / without the initial-window field), SETTINGS ACK
    (expected or stray), PING, PING ACK (shutdown / user / stray payload), GOAWAY (any last id of GoAwayIds, any code of Codes,
-   repeated, increasing), HEADERS opening a fresh stream, RST_STREAM (open, closed, idle stream), clean EOF - at any moment,
-   each kind budgeted.  The application calls graceful_shutdown, abrupt_shutdown, set_initial_window_size, takes the ping handle,
-   sends user pings, answers / fills / ends streams; the socket blocks and unblocks.  The connection task runs step by step.
+   repeated, increasing), server role: HEADERS opening a fresh stream, RST_STREAM (open, closed, idle stream); client role: the
+   response to / a reset of a request; clean EOF - at any moment between two polls, within the budgets Bud.peer / MaxInq.
+   The application calls graceful_shutdown, abrupt_shutdown (server), set_initial_window_size, takes the ping handle, sends user
+   pings, answers / fills / ends streams (server), sends requests, drops its handles and the SendRequest (client); the socket
+   blocks and unblocks.  The connection task runs poll by poll (Atomic) or step by step.
    Export mode (ExportLen > 0): TLC -simulate prints behaviours under the schedule of the simulator: one environment step per
-   quiescence, then the connection task (and the user-ping task) run until nothing is runnable.
-   Configurations: MC_Conn_quick / _thorough (exhaustive), MC_Conn_export (simulation, bin/conform_conn.py).
-   notes/conn_model.md has the numbers. *)
+   quiescence (the peer may put a second frame right behind the first), then the connection task and the tasks it wakes run
+   until nothing is runnable.
+   Configurations: MC_Conn_quick / _thorough / _steps (server), MC_Conn_client_quick / _thorough / _steps (client): exhaustive;
+   MC_Conn_export / MC_Conn_export_client: simulation for bin/conform_conn.py.  notes/conn_model.md has the numbers. *)
 EXTENDS H2Conn, Json
 
 CONSTANTS Bud,            \* budgets: [peer, app, block]
           MaxInq,         \* frames delivered and not yet read
+          MaxBurst,       \* environment steps between the wake-up of the connection task and its poll
           SetVals,        \* initial-window fields of the peer's SETTINGS (0 = absent)
           PingVals,       \* payloads of the peer's PINGs
           AckVals,        \* payloads of the peer's PING ACKs
-          GoAwayIds, Codes,
+          GoAwayIds, Codes,   \* last ids / error codes of the peer's GOAWAY frames
+          AbruptCodes,    \* codes the application passes to abrupt_shutdown
+          AllowEof,
           LocalVals,      \* values the application passes to set_initial_window_size
           HarnessPing,    \* TRUE: user pings the way the simulator issues them (handle taken without a poll, then send_ping)
+          Atomic,         \* TRUE: one call of Connection::poll is one step; FALSE: step by step
           ExportLen       \* 0: model checking; > 0: record the history, export behaviours of about this many environment steps
 
 VARIABLES bud, hist
 mvars == <<cvars, bud, hist>>
 
 \* budgets: peer frames, application calls, times the socket blocks; MaxInq bounds the frames delivered and not yet read
-BudQuick == [peer |-> 4, app |-> 3, block |-> 1]
-BudThorough == [peer |-> 5, app |-> 4, block |-> 1]
-BudExport == [peer |-> 14, app |-> 8, block |-> 3]
+BudQuick == [peer |-> 3, app |-> 2, block |-> 1, nb |-> 0]
+\* MC_Conn_steps.cfg: every step of a poll is a TLC step (Atomic = FALSE), the per-step invariants are checked in the middle of a poll too
+BudSteps == [peer |-> 2, app |-> 2, block |-> 1, nb |-> 0]
+BudThorough == [peer |-> 4, app |-> 2, block |-> 1, nb |-> 0]
+BudExport == [peer |-> 14, app |-> 8, block |-> 3, nb |-> 0]
 
 MCInit ==
     /\ Init0
     /\ bud = Bud
     /\ hist = <<>>
 
-Use(k) == bud[k] > 0 /\ bud' = [bud EXCEPT ![k] = bud[k] - 1]
+\* bud.nb: environment steps since the task was woken (at most MaxBurst of them before it is polled: reduction)
+NbNext == IF tk.woken THEN bud.nb + 1 ELSE IF tk'.woken THEN 1 ELSE 0
+MayMove == ~tk.woken \/ bud.nb < MaxBurst
 Export == ExportLen > 0
 
 \* what the statistics snapshot / the trace of the real library shows
-Proj == [num_streams |-> Cardinality({s \in Streams : sl.st[s] \in CountedSt}),
+Proj == [num_streams |-> Cardinality({s \in Streams : sl.st[s] \in CountedSt}), refs |-> HasRefs(Cur),
          last_processed_id |-> sl.lastProc, recv_max |-> sl.recvMax, send_max |-> sl.sendMax,
          send_iws |-> sl.sendIws, recv_iws |-> sl.recvIws, conn_error |-> sl.connErr,
          ended |-> tk.res.k # "none", shut |-> io.shut, blocked |-> io.blocked, full |-> io.full,
@@ -47,17 +58,30 @@ Proj == [num_streams |-> Cardinality({s \in Streams : sl.st[s] \in CountedSt}),
          pending |-> ga.pending.some, inq |-> Len(io.inq), state |-> cs.state]
 H(x) == hist' = IF Export THEN Append(hist, [a |-> x, out |-> obs'.out, api |-> obs'.api, p |-> Proj']) ELSE hist
 
-ConnStep(A, x) == A /\ H(x) /\ UNCHANGED bud
+Untouched(s) ==
+    /\ \A i \in 1..Len(io.inq) : ~(io.inq[i].ty \in {"HEADERS", "RST_STREAM"} /\ io.inq[i].a = s) /\ ~(io.inq[i].ty = "GOAWAY" /\ io.inq[i].a < s)
+    /\ sl.fq[s] = <<>>                                                      \* (the whole request has been handed to the socket)
+    /\ \A k \in 1..Len(io.wbuf) : ~(io.wbuf[k].ty = "DATA" /\ io.wbuf[k].a = s)
+EnvNames == {"request", "request_big", "response", "drop_sr", "settings", "settings_ack", "ping", "ping_ack", "goaway", "headers", "rst", "eof", "block", "unblock", "graceful_shutdown",
+             "abrupt_shutdown", "set_initial_window", "ping_handle", "send_ping", "user_ping", "fill", "end"}
+NEnv == Cardinality({i \in 1..Len(hist) : hist[i].a[1] \in EnvNames})
+Late == NEnv + 5 >= ExportLen
+\* export only: an environment step that would end the connection at once is taken late in the behaviour
+NotEarly(c) == ~Export \/ c \/ Late
+
+ConnStep(A, x) == A /\ H(x) /\ bud' = [bud EXCEPT !.nb = 0]
 \* Reduction: the environment moves between two polls only.  A frame arriving in the middle of a poll commutes with the steps that
 \* do not read (it is the same as arriving just before the poll, or - after poll_next returned Pending - just after it); the same
 \* holds for the shared-handle calls (send_ping, stream calls).  Only block / unblock in the middle of a poll is not covered.
 AtRest == tk.pc \in {"idle", "done"}
-Env(k, A, x) == AtRest /\ Use(k) /\ A /\ H(x)
+Env(k, A, x) == AtRest /\ MayMove /\ bud[k] > 0 /\ A /\ bud' = [bud EXCEPT ![k] = bud[k] - 1, !.nb = NbNext] /\ H(x)
+EnvFree(A, x) == AtRest /\ MayMove /\ A /\ bud' = [bud EXCEPT !.nb = NbNext] /\ H(x)
 Peer(A, x) == Len(io.inq) < MaxInq /\ Env("peer", A, x)
 
 MCNext ==
     \* ---- the connection task ----
-    \/ ConnStep(PollStart, <<"poll">>)
+    \/ Atomic /\ ConnStep(PollAtomic, <<"poll_atomic">>)
+    \/ ~Atomic /\ ConnStep(PollStart, <<"poll">>)
     \/ ConnStep(PollGoAway, <<"poll_go_away">>)
     \/ ConnStep(SendPendingPong, <<"send_pending_pong">>)
     \/ ConnStep(SendPendingPing, <<"send_pending_ping">>)
@@ -68,28 +92,36 @@ MCNext ==
     \/ ConnStep(CodecShutdown, <<"codec_shutdown">>)
     \/ ConnStep(TakeError, <<"take_error">>)
     \/ ConnStep(PollPong, <<"poll_pong">>)
+    \/ \E s \in Streams : ConnStep(DropRef(s), <<"drop_ref", s>>)
     \* ---- the peer ----
     \/ \E v \in SetVals : Peer(PeerSend(FSettings(v)), <<"settings", v>>)
-    \/ Peer(PeerSend(FSettingsAck), <<"settings_ack">>)
+    \/ Peer(NotEarly(se.local = "WaitingAck" /\ \A i \in 1..Len(io.inq) : io.inq[i].ty # "SETTINGS_ACK") /\ PeerSend(FSettingsAck), <<"settings_ack">>)
     \/ \E p \in PingVals : Peer(PeerSend(FPing(p)), <<"ping", p>>)
     \/ \E p \in AckVals : Peer(PeerSend(FPong(p)), <<"ping_ack", p>>)
-    \/ \E l \in GoAwayIds, c \in Codes : Peer(PeerSend(FGoAway(l, c)), <<"goaway", l, c>>)
-    \/ \E s \in Streams : /\ \A t \in Streams : t >= s => (sl.st[t] = "idle" /\ \A i \in 1..Len(io.inq) : ~(io.inq[i].ty = "HEADERS" /\ io.inq[i].a = t))
+    \/ \E l \in GoAwayIds, c \in Codes : Peer(NotEarly(HasStreamsNow /\ l <= sl.sendMax) /\ PeerSend(FGoAway(l, c)), <<"goaway", l, c>>)
+    \/ \E s \in Streams : /\ Role = "server"
+                          /\ \A t \in Streams : t >= s => (sl.st[t] = "idle" /\ \A i \in 1..Len(io.inq) : ~(io.inq[i].ty = "HEADERS" /\ io.inq[i].a = t))
                           /\ Peer(PeerSend(FHeaders(s, TRUE)), <<"headers", s>>)
-    \/ \E s \in Streams : Peer(PeerSend(FRst(s)), <<"rst", s>>)
-    \/ Peer(PeerEof, <<"eof">>)
+    \/ \E s \in Streams : Peer(Role = "server" /\ NotEarly(sl.st[s] # "idle") /\ PeerSend(FRst(s)), <<"rst", s>>)
+    \* (client role) the response to / a reset of a request the peer has seen, unless a frame that ends the stream is already on its way
+    \/ \E s \in Streams : Peer(Role = "client" /\ sl.st[s] = "open" /\ Untouched(s) /\ PeerSend(FHeaders(s, TRUE)), <<"response", s>>)
+    \/ \E s \in Streams : Peer(Role = "client" /\ sl.st[s] = "open" /\ Untouched(s) /\ PeerSend(FRst(s)), <<"rst", s>>)
+    \/ AllowEof /\ Peer(PeerEof, <<"eof">>)
     \* ---- the socket ----
     \/ Env("block", Block, <<"block">>)
-    \/ AtRest /\ Unblock /\ UNCHANGED bud /\ H(<<"unblock">>)
+    \/ EnvFree(Unblock, <<"unblock">>)
     \* ---- the application ----
     \/ Env("app", GracefulShutdown, <<"graceful_shutdown">>)
-    \/ \E c \in Codes : Env("app", AbruptShutdown(c), <<"abrupt_shutdown", c>>)
+    \/ \E c \in AbruptCodes : Env("app", Role = "server" /\ AbruptShutdown(c), <<"abrupt_shutdown", c>>)
+    \/ \E s \in Streams : Env("app", AppRequest(s), <<"request", s>>)
+    \/ \E s \in Streams : Env("app", (io.blocked \/ ~Export) /\ AppRequestBig(s), <<"request_big", s>>)
+    \/ Env("app", NotEarly(HasStreamsNow \/ \E s \in Streams : sl.ref[s]) /\ DropSendRequest, <<"drop_sr">>)
     \/ \E v \in LocalVals : Env("app", SetInitialWindowSize(v), <<"set_initial_window", v>>)
-    \/ ~HarnessPing /\ AtRest /\ TakeUserPings(TRUE) /\ UNCHANGED bud /\ H(<<"ping_handle">>)
+    \/ ~HarnessPing /\ EnvFree(TakeUserPings(TRUE), <<"ping_handle">>)
     \/ ~HarnessPing /\ Env("app", SendPing, <<"send_ping">>)
     \/ HarnessPing /\ Env("app", UserPing, <<"user_ping">>)
-    \/ \E s \in Streams : Env("app", (io.blocked \/ ~Export) /\ AppFill(s), <<"fill", s>>)
-    \/ \E s \in Streams : Env("app", AppEnd(s), <<"end", s>>)
+    \/ \E s \in Streams : Env("app", Role = "server" /\ (io.blocked \/ ~Export) /\ AppFill(s), <<"fill", s>>)
+    \/ \E s \in Streams : Env("app", Role = "server" /\ AppEnd(s), <<"end", s>>)
 
 MCSpec == MCInit /\ [][MCNext]_mvars
 
@@ -108,7 +140,7 @@ InvResult == ~Alive =>
     /\ tk.res.remote => (gh.peerGoAway.some /\ tk.res.code = gh.peerGoAway.code)
 \* no deadlock of the connection task: when it is parked (returned Pending, no wake-up since) nothing is left that it could do
 Owed == \/ ga.pending.some \/ pp.pong # 0 \/ pp.ping = "unsent" \/ se.remote >= 0 \/ se.local = "ToSend"
-        \/ sl.sq # <<>> \/ io.wbuf # <<>> \/ cs.state # "Open" \/ ShouldCloseNow(Cur)
+        \/ sl.ps # <<>> \/ sl.po # <<>> \/ io.wbuf # <<>> \/ cs.state # "Open" \/ ShouldCloseNow(Cur)
 InvParked == (Parked /\ Alive) =>
     /\ Owed => (io.blocked /\ tk.ww)                                         \* only a blocked socket holds output back, and the task waits for it
     /\ (io.inq # <<>> \/ io.eof) => (io.blocked /\ tk.ww)                    \* unread input only while a reply cannot be buffered
@@ -116,23 +148,44 @@ InvParked == (Parked /\ Alive) =>
     \* pending_ping is None: the user's PING is written when the shutdown ping's ACK has been read) - or its wake-up was lost
     /\ pp.user = "PendingPing" => ((io.blocked /\ tk.ww) \/ pp.ping = "sent" \/ gh.lostPing)
     /\ (~io.blocked /\ (cs.error.some \/ ShouldCloseOnIdle(Cur))) => HasStreamsNow    \* drained => closed
+    \* an idle client (no stream, no handle left; or handles of closed streams about to be dropped) closes
+    /\ (Role = "client" /\ ~io.blocked) => (HasStreamsNow \/ HasRefs(Cur))
 \* C15 graceful shutdown, at rest with a free socket: GOAWAY(2^31-1) + PING are out; after the ACK the final GOAWAY(last processed) is out
 InvGraceful == (Parked /\ Alive /\ ~io.blocked /\ ~ga.closeNow) =>
     /\ gh.graceful = "started" => (gh.goaways # <<>> /\ Last(gh.goaways) = <<MaxI, NO_ERROR>> /\ pp.ping = "sent")
     /\ gh.graceful = "acked" => (gh.goaways # <<>> /\ Last(gh.goaways) = <<sl.recvMax, NO_ERROR>> /\ sl.recvMax # MaxI /\ pp.ping = "none" /\ HasStreamsNow)
 \* C15: once a GOAWAY with a real last id is out, no stream above it exists / is counted
-InvCutoff == \A s \in Streams : (gh.goaways # <<>> /\ s > Last(gh.goaways)[1]) => sl.st[s] = "idle"
-\* an idle client closes with GOAWAY(NO_ERROR) - client role (not in this version)
+InvCutoff == /\ Role = "server" => \A s \in Streams : (gh.goaways # <<>> /\ s > Last(gh.goaways)[1]) => sl.st[s] = "idle"
+             \* ... and once the peer's GOAWAY has been read, no locally initiated stream above its last id is alive or gets started
+             /\ Role = "client" => \A s \in Streams : (gh.peerGoAway.some /\ s > gh.peerGoAway.last) => sl.st[s] \in {"idle", "closed"}
+\* C15: an idle client closes with GOAWAY(NO_ERROR): a client whose future completed although the peer never sent GOAWAY, the transport
+\* never ended and no connection error was raised has written exactly GOAWAY(0, NO_ERROR) and reports Ok
+InvIdleClient == (Role = "client" /\ ~Alive /\ ~gh.peerGoAway.some /\ ~io.eof /\ tk.res = ResOk) => gh.goaways = <<<<0, NO_ERROR>>>>
 
 \* ---- export for replay ------------------------------------------------------------------------------------------------------------
-ConnSteps == {"poll", "poll_go_away", "send_pending_pong", "send_pending_ping", "settings_poll_send", "recv_frame", "poll_complete",
+ConnSteps == {"drop_ref", "poll", "poll_atomic", "poll_go_away", "send_pending_pong", "send_pending_ping", "settings_poll_send", "recv_frame", "poll_complete",
               "handle_poll2_result", "codec_shutdown", "take_error", "poll_pong"}
-Busy == (Alive /\ (tk.pc # "idle" \/ tk.woken)) \/ (tk.pt = "waiting" /\ pp.user \in {"ReceivedPong", "Closed"})
+Busy == \/ Alive /\ (tk.pc # "idle" \/ tk.woken)
+        \/ tk.pt = "waiting" /\ pp.user \in {"ReceivedPong", "Closed"}
+        \/ \E s \in Streams : sl.ref[s] /\ sl.st[s] = "closed"
 LastA == hist'[Len(hist')].a[1]
+\* (simulation bias) the steps that end the connection come late; a blocked socket is unblocked before the behaviour ends
+EndingNow == \/ cs.state # "Open" \/ ga.closeNow \/ tk.r.k = "goaway" \/ io.eof
+             \/ ((cs.error.some \/ ShouldCloseOnIdle(Cur)) /\ ~HasStreamsNow)
+LateEnd == /\ (EndingNow' /\ ~EndingNow) => Late
+           /\ (NEnv >= ExportLen /\ io.blocked) => (LastA \in ConnSteps \/ LastA = "unblock")
 \* everything runnable runs before the next environment step (a quiescence of the simulator)
-Drained == Busy => (hist' # hist /\ LastA \in ConnSteps)
-NEnv == Cardinality({i \in 1..Len(hist) : hist[i].a[1] \notin ConnSteps})
-Finished == NEnv >= ExportLen \/ (~Alive /\ NEnv >= 3)
+\* ... except that the peer may send a second frame right behind the first one: both are read in one poll
+FrameNames == {"settings", "settings_ack", "ping", "ping_ack", "goaway", "headers", "rst", "response"}
+BurstOk == /\ tk.pc = "idle" /\ Alive /\ hist' # hist /\ LastA \in FrameNames
+           /\ Len(hist) > 0 /\ hist[Len(hist)].a[1] \in FrameNames
+           /\ (Len(hist) < 2 \/ hist[Len(hist) - 1].a[1] \notin FrameNames)
+\* the simulator polls the connection task first (lowest slot): the user-ping task and the tasks that hold stream handles run when
+\* the connection task has returned and is not woken (a threaded runtime could run them in the middle of a poll: H2Conn allows it)
+TaskOrder == (hist' # hist /\ LastA \in {"poll_pong", "drop_ref"}) => (~Alive \/ (tk.pc = "idle" /\ ~tk.woken))
+Drained == /\ Busy => ((hist' # hist /\ LastA \in ConnSteps) \/ BurstOk)
+           /\ TaskOrder
+Finished == (NEnv >= ExportLen /\ ~io.blocked) \/ (~Alive /\ NEnv >= 3)
 ExportInv == (Finished /\ ~Busy) => PrintT(<<"REPLAY", ToJson([hist |-> hist])>>)
 ExportStop == ~Finished \/ Busy
 =============================================================================
